@@ -38,10 +38,13 @@ from py7zr.properties import PROPERTY
 
 from harness import arch
 
-GEN_DEPS = []
+GEN_DEPS = ["Cli._check_volumesize_valid", "Cli._volumesize_unitconv"]
 LEVEL = "proof"
 TRUSTED_BASE = [
     "Coq 8.16.1 kernel, vm_compute (no native_compute); no axioms (Print Assumptions: closed)",
+    "tools/translate.py + theories/PyPrims.v, PyStr.v, PyRe.v (semantics of the Python primitives, of the one regular-"
+    "expression family and of int(str)/dict lookups; differential-tested here by harness/prims.py): the C19_gen_* theorems "
+    "are about coq/gen/CliVol.v, regenerated from class Cli of py7zr/cli.py on this run",
     "theories/Cli.v as a transcription of py7zr/cli.py (dunits, unit_pattern, _check_volumesize_valid, "
     "_volumesize_unitconv, run_test, run_extract, run_list, run_create, run_append) and of SevenZipFile.testzip; "
     "tied to the code by the correspondence run of this check (exhaustive over the modelled outcome space)",
@@ -193,6 +196,38 @@ def check_volsize(ctx, rep, rng, tier):
                 observations.append("undocumented SIZE %r passes the validity check and then raises %s" % (s, tag[14:]))
     rep.extra["volsize_strings"] = n
     rep.sample({"volsize": "2k", "impl": impl_volsize(cli, "2k")})
+
+
+def check_translation(ctx, rep, rng, tier):
+    """translation validation: the functions generated from the current py7zr/cli.py (coq/gen/CliVol.v, extracted) against
+    Cli._check_volumesize_valid / Cli._volumesize_unitconv on the strings of check_volsize; and the primitives they are
+    built from (re, int(str), dict) against CPython (harness/prims.py)"""
+    import vlib
+    from harness import prims
+    model = ctx["model"]
+    if model is None or "gen_cli_volsize" not in vlib.fn_table():
+        return
+    prims.check_prims(ctx, rep)
+    if model.call("gen_cli_volsize", cps("2k")) != [[0, 1], [0, 2048]]:
+        if model.call("gen_cli_volsize", cps("2k"))[:1] == [[0, 1]]:
+            pass     # a changed multiplier: compared below
+        else:
+            return   # not the executable that contains the generated functions (its build failure is reported by verif.py)
+    cli = cli_mod.Cli()
+    n = 0
+    for s in volsize_strings(tier):
+        valid, conv = impl_volsize(cli, s)
+        gv, gc = model.call("gen_cli_volsize", cps(s))
+        n += 1
+        want_v = [0, 1 if valid else 0] if isinstance(valid, bool) else [1]
+        want_c = [0, conv[1]] if conv[0] == 0 else [1]
+        if gv[:len(want_v)] != want_v or gc[:len(want_c)] != want_c:
+            rep.violation("the functions translated from Cli._check_volumesize_valid/_volumesize_unitconv disagree with the "
+                          "Python on %r: generated %s %s, Python valid=%r conv=%s" % (s[:40], _short(gv), _short(gc), valid, _short(conv)),
+                          {"kind": "translation", "s": cps(s)[:200]}, concrete=False, match_keys={"kind": "translation"})
+            return
+    rep.extra["translation_validation_cases"] = n
+    rep.count(("translation", n), nontrivial=True, n=n)
 
 
 _CORR = {}
@@ -1332,7 +1367,7 @@ def run(ctx):
                        "every flag combination / l (non-trivial = is_7zfile true); c/a: sizes x archive names x exists x -P x library behaviour; "
                        "processes: trees x archive name with/without .7z x odir given or not x --verbose, appends by shape, volume sizes with "
                        "and without unit, bit flips / truncations of small archives of each chain (non-trivial = actually altered); distinct by input")
-    for part in (check_volsize, check_status_logic, explore):
+    for part in (check_translation, check_volsize, check_status_logic, explore):
         try:
             part(ctx, rep, rng, tier)
         except Exception as e:  # noqa
